@@ -468,13 +468,14 @@ func parseField(v reflect.Value, data []byte, initOffset int, info *fieldInfo) (
 		if err != nil {
 			return offset, err
 		}
-		datalen := int(varlen)
 		offset += int(info.count)
 		rest = rest[info.count:]
 
-		if datalen > len(rest) {
+		// Compare before converting: an 8-byte length can exceed the range of int.
+		if varlen > uint64(len(rest)) {
 			return offset, syntaxError{info.fieldName(), "truncated slice"}
 		}
+		datalen := int(varlen)
 		inner := rest[:datalen]
 		offset += datalen
 		if fieldType.Elem().Kind() == reflect.Uint8 {
